@@ -18,6 +18,8 @@ func init() {
 			ruleReaderFrom(c, r, "")
 			ruleBlockEnd(c, r, "")
 			ruleNewReaderInit(c, r, "")
+			ruleWriterTo(c, r, "")
+			ruleRingWriters(c, r, "")
 			ruleDecoderReadErr(c, r, "")
 			ruleIO(c, r, readerCone(c), "", true)
 		},
